@@ -332,6 +332,16 @@ def check_C04(run: Run):
             c2 = through_passes(g, c)
             if c2 is not None: c = c2
         cases.append({"c": c})
+    # circuits with every statement kind that went through a non-identity map
+    for _ in range(run.n(40, 400)):
+        n = rng.randint(2, 4)
+        c = g.circuit(n=n, kinds="named", allow_band=False, length=rng.randint(2, 7))
+        c["stmts"] += [g.reset(rng.randrange(n)), g.measure(rng.randrange(n), 0, "measure"), g.named2(*rng.sample(range(n), 2))]
+        rng.shuffle(c["stmts"])
+        p_ = list(range(n)); rng.shuffle(p_)
+        if p_ == sorted(p_): p_ = p_[1:] + p_[:1]
+        r0 = O.impl_map(p_, c)
+        if r0["err"] is None: cases.append({"c": r0["c"], "via": "map"})
     def cmp_w(c, r, m):
         if m is None: return None
         if r["err"] != m["err"]: return f"write {r['err']} vs model {m['err']}"
